@@ -107,6 +107,8 @@ def units_for(prop, tier, gdir):
     # ones that finish in about two minutes, the thorough tier all of them
     import uroute
     for cn in notes['containers']:
+        if cn not in uroute.REGISTERED:
+            continue
         for u in uroute.units_for_container(cn, gen):
             if tier == 'thorough' or u.short in uroute.QUICK or cn in uroute.QUICK_ALL:
                 u.spec = specs[cn]
